@@ -79,7 +79,9 @@ func vrfSortStrings(l []string) {
 // opened on the directory: every mailbox lists and is visited without error, the other mailbox is
 // intact with content, alpha shows either the state before or the state after the operation with
 // complete content, and alpha accepts new mail.
-func VerifC11Crash(op int, pre int, mcap int) {
+func VerifC11Crash(op int, pre int, mcap int, nset int) {
+	names := vrfNames(nset)
+	box, obox := names[0], names[1]
 	dir := vrf.VfsTempDir()
 	defer os.RemoveAll(dir)
 	cfg := config.Storage{MailboxMsgCap: mcap, Params: map[string]string{"path": dir}}
@@ -96,7 +98,7 @@ func VerifC11Crash(op int, pre int, mcap int) {
 	for i := 0; i < pre; i++ {
 		tag := string(rune('a' + i))
 		b0 := vrf.Byte("pre_byte_" + tag)
-		id, aerr := deliver(st, "alpha", tag, b0)
+		id, aerr := deliver(st, box, tag, b0)
 		vrf.Assert("prelude-noerr", aerr == nil)
 		before = append(before, vrfObs{id: id, subj: "s" + tag, b0: b0})
 		if mcap > 0 && len(before) > mcap {
@@ -104,7 +106,7 @@ func VerifC11Crash(op int, pre int, mcap int) {
 		}
 	}
 	ob := vrf.Byte("other_byte")
-	oid, oerr := deliver(st, "b@x.org", "o", ob)
+	oid, oerr := deliver(st, obox, "o", ob)
 	vrf.Assert("prelude-noerr", oerr == nil)
 	other := []vrfObs{{id: oid, subj: "so", b0: ob}}
 
@@ -166,7 +168,7 @@ func VerifC11Crash(op int, pre int, mcap int) {
 		}()
 		switch op {
 		case 0:
-			id, aerr := deliver(st, "alpha", "n", nb)
+			id, aerr := deliver(st, box, "n", nb)
 			vrf.Assert("op-noerr", aerr == nil)
 			after = append(append([]vrfObs(nil), before...), vrfObs{id: id, subj: "sn", b0: nb})
 			if mcap > 0 && len(after) > mcap {
@@ -174,14 +176,14 @@ func VerifC11Crash(op int, pre int, mcap int) {
 			}
 		case 1:
 			if len(before) > 0 {
-				vrf.Assert("op-noerr", st.MarkSeen("alpha", before[0].id) == nil)
+				vrf.Assert("op-noerr", st.MarkSeen(box, before[0].id) == nil)
 			}
 		case 2:
 			if len(before) > 0 {
-				vrf.Assert("op-noerr", st.RemoveMessage("alpha", before[0].id) == nil)
+				vrf.Assert("op-noerr", st.RemoveMessage(box, before[0].id) == nil)
 			}
 		case 3:
-			vrf.Assert("op-noerr", st.PurgeMessages("alpha") == nil)
+			vrf.Assert("op-noerr", st.PurgeMessages(box) == nil)
 		}
 	}()
 	CrashHook = nil
@@ -214,11 +216,11 @@ func VerifC11Crash(op int, pre int, mcap int) {
 	visited := 0
 	verr := st2.VisitMailboxes(func(ms []storage.Message) bool { visited += len(ms); return true })
 	vrf.Assert("after-crash-visit-without-error", verr == nil)
-	gotOther, ok1 := vrfObserve(st2, "b@x.org")
+	gotOther, ok1 := vrfObserve(st2, obox)
 	if ok1 {
 		vrf.Assert("after-crash-untouched-mailbox-intact", vrfSame(gotOther, other))
 	}
-	got, ok2 := vrfObserve(st2, "alpha")
+	got, ok2 := vrfObserve(st2, box)
 	if !ok2 {
 		return
 	}
@@ -244,14 +246,14 @@ func VerifC11Crash(op int, pre int, mcap int) {
 	if len(got) > 0 {
 		switch vrf.Fork(vrf.Int("after_op", 0, 2)) {
 		case 1:
-			vrf.Assert("after-crash-remove-works", st2.RemoveMessage("alpha", got[0].id) == nil)
+			vrf.Assert("after-crash-remove-works", st2.RemoveMessage(box, got[0].id) == nil)
 			got = got[1:]
 		case 2:
-			vrf.Assert("after-crash-markseen-works", st2.MarkSeen("alpha", got[0].id) == nil)
+			vrf.Assert("after-crash-markseen-works", st2.MarkSeen(box, got[0].id) == nil)
 			got = append([]vrfObs(nil), got...)
 			got[0].seen = true
 		}
-		got1, ok := vrfObserve(st2, "alpha")
+		got1, ok := vrfObserve(st2, box)
 		if !ok {
 			return
 		}
@@ -259,10 +261,10 @@ func VerifC11Crash(op int, pre int, mcap int) {
 	}
 	// the mailbox accepts new mail
 	fb := vrf.Byte("final_byte")
-	fid, ferr := deliver(st2, "alpha", "f", fb)
+	fid, ferr := deliver(st2, box, "f", fb)
 	vrf.Assert("after-crash-accepts-new-mail", ferr == nil)
 	if ferr == nil {
-		got2, ok3 := vrfObserve(st2, "alpha")
+		got2, ok3 := vrfObserve(st2, box)
 		if ok3 {
 			want := append(append([]vrfObs(nil), got...), vrfObs{id: fid, subj: "sf", b0: fb})
 			if mcap > 0 && len(want) > mcap {
